@@ -7,7 +7,7 @@ regenerated statement lists* in `Gen/Modes.lean`, composed with the writer model
 What is interpreted from Gen (so a change in vaxis.go changes the model): which sequence is written
 under which capability/option guard, in which order, where the buffer is flushed, which helper is
 called.  What is hand-modelled: the writer prologue/epilogue (tied by the C01 correspondence), the
-direct DSR write of `CursorPosition()` inside `sendQueries`, the order of calls in `New`.
+direct DSR write of `CursorPosition()` inside `sendQueries`.
 -/
 import VaxisModel.Gen.Modes
 import VaxisModel.Model.Render
@@ -257,9 +257,16 @@ def sendQueriesS (w : SSt) : SSt :=
 
 def sendQueriesW (w : WSt) : WSt := concW { v := fun _ => false } w (sendQueriesS (absW w))
 
-/-- Everything `New` writes (graphics / size queries via xtwinops excluded: environment driven). -/
+/-- Everything `New` writes (graphics / size queries via xtwinops excluded: environment driven): the
+    lifecycle functions `New` calls, in the order regenerated from its body (`Gen.Modes.newCalls`);
+    `openTty` installs a new writer. -/
 def startupS (v : String → Bool) : SSt :=
-  interpS v 64 enableModes (interpS v 64 enterAltScreen (sendQueriesS {}))
+  newCalls.foldl (fun w f =>
+    if f = "openTty" then { w with fresh := true }
+    else if f = "sendQueries" then sendQueriesS w
+    else match table f with
+      | some body => interpS v 64 body w
+      | none => w) {}
 
 def startupW (e : Env) : WSt := concW e {} (startupS e.v)
 
